@@ -22,7 +22,7 @@ SOURCES = ["include/etl/_algorithm", "include/etl/_numeric/accumulate.hpp", "inc
            "include/etl/_numeric/transform_reduce.hpp", "include/etl/_iterator/next.hpp", "include/etl/_iterator/prev.hpp",
            "include/etl/_iterator/advance.hpp", "include/etl/_iterator/distance.hpp", "include/etl/_functional/less.hpp",
            "include/etl/_utility/swap.hpp"]
-RULE = ("exhaustive: every key sequence of length <= 5 (quick) / 6 (thorough; rotate, reverse, shifts, sorts 7) over the 3-key "
+RULE = ("exhaustive: every key sequence of length <= 5 (quick) / 6 (thorough); rotate, reverse, shifts, sorts, merges up to 6 / 7) over the 3-key "
         "alphabet {0,1,2} (thorough: also 4 keys up to length 5), each element tagged with its position, placed between two "
         "context elements (and bare for short ranges); crossed with every unary predicate over the alphabet (bit masks), every "
         "value key, comparators dflt/less/greater/key%3, binary predicates dflt/eq/key%2, every middle/split point, every count "
@@ -349,12 +349,12 @@ def generate(tier, seed):
     K3 = [0, 1, 2]
     K4 = [0, 1, 2, 3]
     # single-range operations
-    L3 = 5 if thorough else 4
+    L3 = 6 if thorough else 5
     for r in seqs(K3, L3):
         for a, f, l in in_ctx(r):
             gen_for_range(g, r, a, f, l, 3, thorough, True)
     if thorough:
-        for r in seqs(K4, 4, 1):
+        for r in seqs(K4, 5, 1):
             if 300 <= max(r):                      # sequences that really use the fourth key
                 a, f, l = in_ctx(r)[0]
                 gen_for_range(g, r, a, f, l, 4, thorough, True)
@@ -443,4 +443,19 @@ LEVEL_NOTE = ("Trusted: Lean kernel + propext/Classical.choice/Quot.sound; the h
               "coverage.correspondence_only and are covered by the differential run only. Complexity requirements of the standard "
               "(e.g. partition_point is linear here) are outside the property and not checked.")
 # members modelled and compared on every run but without a Lean theorem yet
-CORRESPONDENCE_ONLY = []
+CORRESPONDENCE_ONLY = [
+    "adjacent_find", "is_sorted", "is_sorted_until", "min_element", "max_element", "minmax_element", "binary_search",
+    "search", "find_end", "search_n", "is_permutation", "includes", "copy", "move", "copy_backward", "move_backward",
+    "unique_copy", "transform (binary)", "unique", "shift_left", "shift_right", "partition", "stable_partition",
+    "sort", "gnome_sort", "bubble_sort", "exchange_sort", "nth_element", "partial_sort", "stable_sort", "insertion_sort",
+    "merge_sort", "inplace_merge", "merge", "set_difference", "set_intersection", "set_symmetric_difference", "set_union",
+    "inner_product", "transform_reduce (binary)", "partial_sum", "adjacent_difference"]
+# algorithms whose model is proved equal to the spec for all inputs (TetlProofs/C06/Props.lean)
+WITH_THEOREM = [
+    "find", "find_if", "find_if_not", "all_of", "any_of", "none_of", "count", "count_if", "for_each", "for_each_n",
+    "transform (unary)", "copy_if", "copy_n", "remove_copy", "remove_copy_if", "partition_copy", "reverse_copy", "rotate_copy",
+    "is_partitioned", "partition_point", "find_first_of", "rotate", "reverse (both branches)", "lower_bound", "upper_bound",
+    "equal_range", "mismatch (3/4 iterators)", "equal (3 iterators, 4 iterators both branches)", "lexicographical_compare",
+    "accumulate", "reduce", "transform_reduce (unary)", "min", "max", "minmax", "clamp", "remove", "remove_if", "fill", "fill_n",
+    "generate", "generate_n", "iota", "replace", "replace_if", "swap_ranges"]
+UNPROVED_OBSERVED = ["complexity requirements of the standard (not part of the property; partition_point is linear here)"]
